@@ -42,8 +42,8 @@ pub fn run(eng: &Engine) {
     eng.set_rule("(1) the C06 driver programs (every drain path: collect, read, collect_to_writer with partial / failing sinks, decode_from_to, streaming reads; wrapped and unwrapped ring) on frames with and without a stored checksum: calculated checksum == low 32 bits of the harness's own XXH64 over exactly the delivered bytes == stored checksum; non-trivial = bytes were removed while the ring was wrapped through >= 2 different drain paths, or a mid-frame drain on content exceeding the window; (2) FrameCompressor reuse histories (1..6 frames, both levels, empty inputs, exact block multiples): last 4 bytes == XXH64-32 of that frame's input and the reference decoder (which verifies) accepts; non-trivial = >= 2 frames from one compressor; distinct by case hash");
     eng.assume("XXH64 written in the harness from the published algorithm (twox-hash is not used), validated against fixed vectors and against every checksum libzstd verifies during the run");
     let tier = eng.tier;
-    let n1 = eng.tier.pick(4_000, 120_000);
-    let n2 = eng.tier.pick(1_500, 40_000);
+    let n1 = eng.tier.pick(15_000, 300_000);
+    let n2 = eng.tier.pick(8_000, 150_000);
     eng.run_stage("drain_programs", n1, || c06::case_strategy(tier), check_drain);
     eng.run_stage("compressor_histories", n2, || c02::case_strategy(tier), check_compressor);
 }
